@@ -125,6 +125,39 @@ CHECKS["C06"] = dict(
     design_ref="6/C06",
     technique="TLA+ model (Blocking.tla) checked by TLC incl. liveness + configurations from the model built in the simulator + TLC trace validation of frame walks and attack/idle pairs",
 )
+CHECKS["C13"] = dict(
+    category="model_checking",
+    text="Software.tla: all software of one node - service and application operating states, documented acceptance table (action_masking.rst / software docs), timed "
+    "restart / install with the 5.2 window (must complete while the node is ON; nothing completes while OFF), payload handling only by RUNNING software on an ON node, "
+    "and agreement of the four registries (software manager, node lists, request routes, reported state) with the open ports; TLC exhausts 1 service + 2 applications, "
+    "durations 0..2, 3 port layouts (safety 26,880 states; liveness under fair ticks). TLC behaviours plus directed sequences are replayed through the request API for "
+    "6 (quick) / all 17 (thorough) shipped service and application types in three variants (disjoint ports, shared ports, listening partner), payloads being frames sent "
+    "by a peer host; TLC validates every history against SoftwareTrace.tla.",
+    design_ref="6/C13",
+    technique="TLA+ model (Software.tla) checked by TLC incl. liveness + TLC behaviours replayed per software type + TLC trace validation",
+)
+CHECKS["C16"] = dict(
+    category="model_checking",
+    text="Sessions.tla: accounts, local session, the server's remote-session table with idle counters, client handles, ended ids, power and terminal flags; clauses: a "
+    "login needs existing+enabled account, current password, powered-on node and (remote) a free slot; a remote command is executed only through a live session held by "
+    "that client; nothing executes on a session after logoff, time-out or a password change of its user; the last enabled administrator stays. TLC exhausts 1 server + 2 "
+    "clients, users {admin,u1}, passwords {p,q,wrong}, MaxRemote 2, Timeout 2 to depth 7 (thorough: depth 8 and MaxRemote/Timeout variations). 480 (quick) / 1500 "
+    "(thorough) simulated behaviours incl. refused attempts are replayed on three real nodes (server, router or firewall as target) through the agent-action request "
+    "API; execution is observed by effect (a fresh folder per command); TLC validates against SessionsTrace.tla.",
+    design_ref="6/C16",
+    technique="TLA+ model (Sessions.tla) checked by TLC + TLC behaviours replayed on real nodes + TLC trace validation (execution observed by effect)",
+)
+CHECKS["C17"] = dict(
+    category="model_checking",
+    text="Database.tla: service state, password, capacity, issued-and-open connection ids with origin, client handles, data file health, backup copy, power, per-client "
+    "reachability and the server<->backup path; only-if clauses exactly as the statement (connection only with right password / running / on / reachable / below "
+    "capacity; query only on an open issued id; DELETE->COMPROMISED, ENCRYPT->CORRUPT; SELECT on compromised data fails; restore of a healthy backup gives GOOD; nothing "
+    "while stopped/off/blocked). TLC exhausts 2 clients, Cap 2, 3 ids + forged to depth 7 (thorough: complete state space for 2 ids). Simulated behaviours are replayed "
+    "on a real five-node network behind a router (ACL blocks in either direction, forged/closed/foreign ids as raw payloads, red applications as attack sources, "
+    "backup/restore over FTP); every event carries the projection read from the objects; TLC validates against DatabaseTrace.tla.",
+    design_ref="6/C17",
+    technique="TLA+ model (Database.tla) checked by TLC + TLC behaviours replayed on a real network + TLC trace validation",
+)
 
 REASON_TODO = "check not built yet in this session (planned, see DESIGN.md 10); nothing is claimed for it"
 
